@@ -70,7 +70,7 @@ def declare_cells(V, skel, prefix="c"):
                 if kind == "id" or kind == "str":
                     v = V.int(nm, ID_LO, ID_HI); V.assume(_id_ok(v.t))
                 elif kind == "int":
-                    if j == 0 and (r, c) in signed:
+                    if j == 0 and (r, c) in signed and w > 1:       # a sign needs digits after it: a one-character cell is a digit
                         v = V.int(nm, 43, 57); V.assume(z3.Or(v.t == 45, v.t == 43, v.t >= 48))
                     else:
                         v = V.int(nm, 48, 57)
